@@ -49,7 +49,9 @@ Inductive stmt :=
 | SDimDerived (n : string) (ds : list dexpr)
 | SUnitBase (n : string) (a : option dexpr) (autodim : string)
 | SUnitDerived (n : string) (a : option annot) (e : expr)
-| SProc (p : proc) (args : list expr).
+| SProc (p : proc) (args : list expr)
+| SForeign (f : string) (tparams : list (string * bool)) (params : list (string * annot)) (ret : annot).
+(* SForeign: a function declaration without body (foreign function); all types are annotated *)
 
 (* ------------------------------------------------------------------ schemes, environment *)
 (* TypeScheme for values; function types are kept apart because Type::Fn is not in `ty` *)
@@ -520,6 +522,16 @@ Definition elab_stmt (st : stmt) (s : tc) : res (sres * list ty * tc) :=
       let s8 := add_ok s7 (CEq bt rty) in
       let s9 := with_env s8 ((f, IdFunction (FConcrete pts rty)) :: genv) in
       Ok (RFn f pts rty lts, nl ++ nb, s9)
+  | SForeign f tps ps ret =>
+      (* body.is_none(): parameter and return types come from the annotations only *)
+      let genv := tc_env s in
+      do s1 <- intro_tparams tps s [];
+      do rp <- elab_params (map (fun p => (fst p, Some (snd p))) ps) s1;
+      let '(pts, s2) := rp in
+      do rty <- type_from_annotation (tc_reg s2) ret;
+      let s3 := add_ok s2 (CEq rty rty) in
+      let s4 := with_env s3 ((f, IdFunction (FConcrete pts rty)) :: genv) in
+      Ok (RFn f pts rty [], [], s4)
   | SDimBase n =>
       if reg_contains (tc_reg s) n then Err ENameResolutionError else
       let rg := tc_reg s in
